@@ -54,9 +54,10 @@ func (g *Gauge) WaitForZero(timeout time.Duration) bool {
 }
 
 type registry struct {
-	counters map[string]*Counter
-	gauges   map[string]*Gauge
-	order    []string
+	counters  map[string]*Counter
+	gauges    map[string]*Gauge
+	order     []string
+	gaugeVecs map[string]*promext.RWGaugeVec
 }
 
 // Metrics is a promreg.MetricCreator that keeps everything in plain maps.
@@ -69,7 +70,7 @@ type Metrics struct {
 }
 
 func NewMetrics() *Metrics {
-	return &Metrics{reg: &registry{counters: map[string]*Counter{}, gauges: map[string]*Gauge{}}}
+	return &Metrics{reg: &registry{counters: map[string]*Counter{}, gauges: map[string]*Gauge{}, gaugeVecs: map[string]*promext.RWGaugeVec{}}}
 }
 
 var _ promreg.MetricCreator = (*Metrics)(nil)
@@ -170,9 +171,19 @@ func (m *Metrics) AddOrGetGaugeVec(name string, help string, labelNames []string
 	m.key(name, leftmost)
 	v := promext.NewRWGaugeVec(prometheus.GaugeOpts{Name: "g_" + name}, labelNames)
 	if len(leftmost) > 0 {
-		return v.MustCurryWith(curryLabels(labelNames, leftmost))
+		v = v.MustCurryWith(curryLabels(labelNames, leftmost))
 	}
+	m.reg.gaugeVecs[m.prefix+name] = v
 	return v
+}
+
+// GaugeVecValue reads a gauge of a gauge vector created through this fake.
+func (m *Metrics) GaugeVecValue(fullName string, labelValues ...string) int64 {
+	v, ok := m.reg.gaugeVecs[fullName]
+	if !ok {
+		return 0
+	}
+	return v.WithLabelValues(labelValues...).Get()
 }
 
 // CounterValue returns the value of the counter whose full name (prefix+name)
